@@ -462,7 +462,51 @@ func TestVerifC01Reload(t *testing.T) {
 		},
 		Canon: func(res vsched.Result, obs any) string { b, _ := json.Marshal(obs); return string(b) },
 	}
-	vfRunScenarios(r, []vfScenario{sc})
+	// p2p topic reloaded after one of the two users unsubscribed: numbering must continue
+	p2p := vfScenario{
+		Name:  "p2p-unsub-unload-pub",
+		Bound: [2]int{0, 1},
+		Body: func() any {
+			g := vfBuildWorld(vfBootOpts{}, true)
+			o := &vfReloadObs{}
+			mid, oid := g.users["m"].id(), g.users["o"].id()
+			for i, p := range [][2]string{{"o1", mid}, {"ma", oid}, {"o1", mid}} {
+				_, fr := g.cl[p[0]].Req(`{"pub":{"id":"$ID","topic":"%s","content":"pre%d"}}`, p[1], i)
+				for _, f := range fr {
+					if f.Msg.Ctrl != nil && f.Msg.Ctrl.Code == 202 {
+						o.Before = append(o.Before, vfInt(f.Msg.Ctrl.Params.(map[string]any)["seq"]))
+					}
+				}
+			}
+			g.cl["ma"].Req(`{"leave":{"id":"$ID","topic":"%s","unsub":true}}`, oid)
+			g.cl["o1"].Req(`{"leave":{"id":"$ID","topic":"%s"}}`, mid)
+			vsched.Zone(true)
+			vsched.Advance(20 * time.Second)
+			vsched.Zone(false)
+			for _, c := range g.cl {
+				c.Take()
+			}
+			c := g.cl["o1"]
+			o.SubCode, _ = c.Req(`{"sub":{"id":"$ID","topic":"%s"}}`, mid)
+			id := c.id()
+			fr := c.Do(fmt.Sprintf(`{"pub":{"id":"%s","topic":"%s","content":"post"}}`, id, mid))
+			po := &vfPubObs{Acks: map[string]int{}, Codes: map[string]int{}}
+			if ct := vfCtrl(fr, id); ct != nil {
+				o.Code = ct.Code
+				po.Codes["post"] = ct.Code
+				if ct.Code == 202 {
+					po.Acks["post"] = vfInt(ct.Params.(map[string]any)["seq"])
+				}
+			}
+			vfProbeHistory(c, mid, po)
+			o.After = *po
+			return o
+		},
+		Judge:   sc.Judge,
+		Outcome: sc.Outcome,
+		Canon:   sc.Canon,
+	}
+	vfRunScenarios(r, []vfScenario{sc, p2p})
 }
 
 // ---- S3/S4: crash at every store-call boundary, single fault at every store call --------------
